@@ -49,7 +49,7 @@ CLAIMS["C08"] = dict(
 )
 
 CLAIMS["C06"] = dict(
-    text=("Token store level: for every IPv4/IPv6 address, every store age at issue (0..3 h), up to 3 (IPv4) / 1 (IPv6) in quick, 2 (IPv6) in thorough "
+    text=("Token store level: for every IPv4/IPv6 address, every store age at issue (0..3 h), up to 3 (IPv4; in quick restricted to get_peers from other IPs, all four event kinds in thorough) / 1 (IPv6; 2 in thorough) "
           "interleaved other events at symbolic times and a symbolic final gap (1 ns resolution, symbolic clock start) the solver "
           "decides: accepted whenever younger than 600 s, refused from 1800 s on, refused from any other IP, refused when never "
           "issued or issued by a store with other secrets; Token::new accepts exactly 20 bytes. Bounded by the number of "
